@@ -178,9 +178,17 @@ def part_supercell(ctx):
                     # With inverse.direct = I for any cell (C12) this gives  x'.diag(n) = f + cell.
                     S, Sinv = np.asarray(new.unit_cell.direct, dtype=object), np.asarray(new.unit_cell.inverse, dtype=object)
                     with ex.post(p.pc):
-                        g1 = z3.And([(Sym._lift(S[j, k]) == Sym._lift(D[j, k]) * size[j]).t for j in range(3) for k in range(3)])
-                        r1 = ctx.query("%s%s (%s): supercell lattice vectors = n_j times the original lattice vectors (same orientation)" % (fname, size, route),
-                                       ex.pc, g1, ex=ex, timeout=ctx.default_timeout)
+                        r1 = None
+                        for j in range(3):
+                            for k in range(3):
+                                rr = ctx.query("%s%s (%s): supercell lattice vector %d, component %d = n_%d times the original (same orientation)" % (fname, size, route, j, k, j),
+                                               ex.pc, (Sym._lift(S[j, k]) == Sym._lift(D[j, k]) * size[j]).t, ex=ex, timeout=20)
+                                if r1 is None or rr.verdict == "cex":
+                                    r1 = rr
+                                if rr.verdict == "cex":
+                                    break
+                            if r1.verdict == "cex":
+                                break
                         g2, g3 = [], []
                         for ci, cell in enumerate(cells):
                             for at in range(2):
